@@ -43,6 +43,8 @@ build_fuzz() {
 }
 
 variants_for() {
+  # WSVERIF_ONLY_VARIANTS (selftests only): restrict the build variants, e.g. "plain"
+  if [ -n "${WSVERIF_ONLY_VARIANTS:-}" ]; then echo $WSVERIF_ONLY_VARIANTS; return; fi
   case "$1" in
     C01|C03) echo plain asan checkptr ;;
     C07)     echo plain asan checkptr ;;
